@@ -5,7 +5,7 @@ namespace Mcp.Drv.Pending
 open Lean Mcp.Drv Mcp.Str Mcp.Ids Mcp.Pending
 
 def kindOfStr : String → Except String KeyKind
-  | "sprintfV" => pure .sprintfV | "int64" => pure .int64 | "uint64" => pure .uint64
+  | "idKey" => pure .idKey | "sprintfV" => pure .sprintfV | "int64" => pure .int64 | "uint64" => pure .uint64
   | s => throw s!"key kind {s}"
 
 /-- integers travel as decimal strings (they exceed 2^53, which JSON readers do not keep exact) or as JSON numbers. -/
@@ -81,6 +81,10 @@ def handle (op : String) (j : Json) : Except String Json := do
       -- the `%v` rendering of a float64 is modelled for integers up to 2^53 only
       match k, w with
       | .sprintfV, .num i => if absInt i > 2 ^ 53 then pure (Json.mkObj [("key", "unmodelled")]) else pure (Json.mkObj [("key", keyJson (keyOfWire k w))])
+      -- requestIDKey: integer-valued float64s in the int64 / uint64 range print as integers, the rest as %g
+      | .idKey, .num i =>
+        let v := f64OfInt i
+        if v < -(2 ^ 63 : Int) ∨ v ≥ (2 ^ 64 : Int) then pure (Json.mkObj [("key", "unmodelled")]) else pure (Json.mkObj [("key", keyJson (keyOfWire k w))])
       | _, _ => pure (Json.mkObj [("key", keyJson (keyOfWire k w))])
     | "echo" =>
       -- id of the answer an honest server writes (decode, re-encode), as the JSON text of the id
@@ -114,9 +118,10 @@ def handle (op : String) (j : Json) : Except String Json := do
                       ("disabled", match dis with | some i => Json.num (JsonNumber.fromNat i) | none => Json.null)])
   | "postSse" =>
     let c ← getNat j "call"
+    let k ← kindOfStr (← getStr j "kind")
     let evs ← (← getArr j "evs").toList.mapM postEvOfJson
     let handlers ← getBool j "handlers"
-    let o := if handlers then scanPostSseLast c .error evs else scanPostSse c evs
+    let o := if handlers then scanPostSseLast k c .error evs else scanPostSse k c evs
     pure (Json.mkObj [("out", Json.str (outcomeStr o))])
   | "postJson" =>
     let f ← frameOfJson j
